@@ -820,6 +820,7 @@ func (st *Runtime) isSet(node Node) (ok bool) {
 }
 
 func (st *Runtime) evalNumericComparativeExpression(node *NumericComparativeExprNode) reflect.Value {
+	defer locateConversionError(node.Right)
 	left, right := st.evalPrimaryExpressionGroup(node.Left), st.evalPrimaryExpressionGroup(node.Right)
 	isTrue := false
 	kind := left.Kind()
@@ -924,9 +925,24 @@ func (st *Runtime) evalComparativeExpression(node *ComparativeExprNode) reflect.
 	return reflect.ValueOf(equal)
 }
 
+// conversionError marks a failure of toInt/toUint/toFloat, so that the expression that
+// asked for the conversion can report it with its position (see locateConversionError).
+type conversionError struct{ error }
+
+// locateConversionError is deferred by the evaluators of binary numeric expressions: a
+// failed conversion of an operand is reported as a runtime error at that operand.
+func locateConversionError(operand Node) {
+	if r := recover(); r != nil {
+		if ce, ok := r.(conversionError); ok {
+			operand.error(ce.error)
+		}
+		panic(r)
+	}
+}
+
 func toInt(v reflect.Value) int64 {
 	if !v.IsValid() {
-		panic(fmt.Errorf("invalid value can't be converted to int64"))
+		panic(conversionError{fmt.Errorf("invalid value can't be converted to int64")})
 	}
 	kind := v.Kind()
 	if isInt(kind) {
@@ -938,7 +954,7 @@ func toInt(v reflect.Value) int64 {
 	} else if kind == reflect.String {
 		n, e := strconv.ParseInt(v.String(), 10, 0)
 		if e != nil {
-			panic(e)
+			panic(conversionError{e})
 		}
 		return n
 	} else if kind == reflect.Bool {
@@ -947,12 +963,12 @@ func toInt(v reflect.Value) int64 {
 		}
 		return 1
 	}
-	panic(fmt.Errorf("type: %q can't be converted to int64", v.Type()))
+	panic(conversionError{fmt.Errorf("type: %q can't be converted to int64", v.Type())})
 }
 
 func toUint(v reflect.Value) uint64 {
 	if !v.IsValid() {
-		panic(fmt.Errorf("invalid value can't be converted to uint64"))
+		panic(conversionError{fmt.Errorf("invalid value can't be converted to uint64")})
 	}
 	kind := v.Kind()
 	if isUint(kind) {
@@ -964,7 +980,7 @@ func toUint(v reflect.Value) uint64 {
 	} else if kind == reflect.String {
 		n, e := strconv.ParseUint(v.String(), 10, 0)
 		if e != nil {
-			panic(e)
+			panic(conversionError{e})
 		}
 		return n
 	} else if kind == reflect.Bool {
@@ -973,12 +989,12 @@ func toUint(v reflect.Value) uint64 {
 		}
 		return 1
 	}
-	panic(fmt.Errorf("type: %q can't be converted to uint64", v.Type()))
+	panic(conversionError{fmt.Errorf("type: %q can't be converted to uint64", v.Type())})
 }
 
 func toFloat(v reflect.Value) float64 {
 	if !v.IsValid() {
-		panic(fmt.Errorf("invalid value can't be converted to float64"))
+		panic(conversionError{fmt.Errorf("invalid value can't be converted to float64")})
 	}
 	kind := v.Kind()
 	if isFloat(kind) {
@@ -990,7 +1006,7 @@ func toFloat(v reflect.Value) float64 {
 	} else if kind == reflect.String {
 		n, e := strconv.ParseFloat(v.String(), 0)
 		if e != nil {
-			panic(e)
+			panic(conversionError{e})
 		}
 		return n
 	} else if kind == reflect.Bool {
@@ -999,10 +1015,11 @@ func toFloat(v reflect.Value) float64 {
 		}
 		return 1
 	}
-	panic(fmt.Errorf("type: %q can't be converted to float64", v.Type()))
+	panic(conversionError{fmt.Errorf("type: %q can't be converted to float64", v.Type())})
 }
 
 func (st *Runtime) evalMultiplicativeExpression(node *MultiplicativeExprNode) reflect.Value {
+	defer locateConversionError(node.Right)
 	left, right := st.evalPrimaryExpressionGroup(node.Left), st.evalPrimaryExpressionGroup(node.Right)
 	kind := left.Kind()
 	// if the left value is not a float and the right is, we need to promote the left value to a float before the calculation
@@ -1069,6 +1086,7 @@ func (st *Runtime) evalMultiplicativeExpression(node *MultiplicativeExprNode) re
 }
 
 func (st *Runtime) evalAdditiveExpression(node *AdditiveExprNode) reflect.Value {
+	defer locateConversionError(node.Right)
 	isAdditive := node.Operator.typ == itemAdd
 	if node.Left == nil {
 		right := st.evalPrimaryExpressionGroup(node.Right)
